@@ -255,6 +255,7 @@ def cases(ctx):
                         for how in ("ctor", "param"):
                             out.append({"kind": "eq", "model": m,
                                         "cfg": dict(base, mult=[how, n], pdx=[vid + str(k), ["schulz", 4, 0.3, 3.0]])})
+        out.extend(_zero_family(m, pl, dims))
     for m in (SEL_MODELS_QUICK if ctx.quick else SEL_MODELS_THOROUGH):
         for dk in ("plain", "dx0", "dx", "dxmix", "slit", "2d", "2dres"):
             for n in (4, 50):
@@ -265,6 +266,68 @@ def cases(ctx):
     for m, qk in (REUSE_QUICK if ctx.quick else REUSE_THOROUGH):
         for first in _reuse_variants(plan(m), qk):
             out.append({"kind": "reuse", "model": m, "q": qk, "first": first})
+    return out
+
+
+# explicit zeros: [type, npts, width, nsigmas] with one or more members given as 0 / 0.0 (int and float spellings),
+# alone and next to a non-zero partner
+ZERO_PD = [["gaussian", 0, 0.25, 3.0],      # the usual way of switching dispersity off: npts = 0 beside a width
+           [None, 0, 0.25, None],
+           ["gaussian", 5, 0.0, 3.0],       # width 0.0 beside npts > 1
+           ["schulz", 4, 0, 2.0],           # width 0 (int)
+           ["gaussian", 5, 0.2, 0.0],       # nsigmas 0.0 beside npts > 1 and a width
+           ["lognormal", 4, 0.15, 0],       # nsigmas 0 (int)
+           ["gaussian", 0, 0.0, 0.0],       # everything zero
+           ["rectangle", 0.0, 0.25, None]]  # npts 0.0 (float)
+
+
+def _zero_family(m, pl, dims):
+    """every setting given EXPLICITLY as zero, alone and combined with a non-zero partner, through every interface"""
+    out = []
+    base = {d[0]: d[1] for d in dims}
+
+    def add(**kw):
+        out.append({"kind": "eq", "model": m, "cfg": dict(base, **kw)})
+
+    targets = [(n, "1d") for n in pl.size] + ([(pl.orient, "2d")] if pl.orient else [])
+    for name, q in targets:
+        for alt in ZERO_PD:
+            if pl.by_name[name].type == "orientation":
+                alt = [alt[0], alt[1], alt[2] * 40.0, alt[3]]         # absolute width in degrees
+            for sv in ("setParam", "set_dispersion", "array"):
+                add(q=q, pdx=[name, alt], svmode=sv)
+            if name == pl.size[0] and len(pl.size) > 1:
+                add(q=q, pdx=[name, alt], pd1=PD_B[0])                # next to a genuinely dispersed second parameter
+                add(q="2d", pdx=[name, alt], cutoff=0.0)
+    # plain values: every parameter whose limits contain 0 and whose default is not 0 already
+    k = 0
+    for p in pl.call:
+        if pl.control is not None and p.name == pl.control.name:
+            continue
+        lo, hi = p.limits
+        if not (lo <= 0 <= hi) or p.default == 0 or p.name in ("scale", "background"):
+            continue
+        if pl.structure and p.name in ("scale", "background"):
+            continue
+        k += 1
+        zero = 0 if k % 2 else 0.0
+        add(q="2d" if p.type in ("orientation", "magnetic") else "1d", set={p.name: zero})
+        if p.name in pl.size[:1]:
+            add(set={p.name: zero}, pd0=PD_A[1])                      # a zero size next to its own width
+    if not pl.structure:
+        for s_ in ({"scale": 0.0}, {"background": 0.0}, {"scale": 0, "background": 0}, {"scale": 0.0, "background": BACKGROUND},
+                   {"scale": SCALE, "background": 0}):
+            add(set=s_)
+            if pl.size:
+                add(set=s_, pd0=PD_A[2], q="2d")
+    if pl.magnetic:
+        sld = pl.sld
+        for s_ in ({sld + "_M0": 0.0, sld + "_mtheta": 30.0, "up_frac_i": 0.3},             # amplitude 0 beside angles
+                   {sld + "_M0": 3.0, sld + "_mtheta": 0.0, sld + "_mphi": 0, "up_frac_i": 0.3},
+                   {sld + "_M0": 3.0, sld + "_mtheta": 30.0, "up_frac_i": 0.0, "up_frac_f": 0, "up_theta": 0.0, "up_phi": 0}):
+            add(q="2d", set=s_)
+            if pl.size:
+                add(q="2d", set=s_, pdx=[pl.size[0], ZERO_PD[0]])
     return out
 
 
@@ -320,6 +383,10 @@ def settings_for(pl, cfg):
         if name not in pl.by_name:
             raise HarnessError("%s: no parameter %r" % (pl.name, name))
         pd[name] = tuple(alt)
+    for name, v in (cfg.get("set") or {}).items():
+        if name not in pl.by_name:
+            raise HarnessError("%s: no parameter %r" % (pl.name, name))
+        values[name] = v
     mult = cfg.get("mult")
     if mult:
         values[pl.control.name] = mult[1]
@@ -344,7 +411,7 @@ def settings_for(pl, cfg):
         values["up_frac_i"], values["up_frac_f"], values["up_theta"], values["up_phi"] = 0.3, 0.6, 70.0, 25.0
     return {"values": values, "pd": pd, "cutoff": cfg.get("cutoff", 1e-5), "mult": mult, "q": cfg.get("q", "1d"),
             "svmode": cfg.get("svmode", "setParam"), "cut1": cut1, "magnetised": magnetised,
-            "order": cfg.get("order", "ascending")}
+            "order": cfg.get("order", "ascending"), "set": dict(cfg.get("set") or {})}
 
 
 def underscore_pars(st):
@@ -513,7 +580,7 @@ def _evaluate(pl, st, mods, interfaces=INTERFACES):
 def _describe(pl, st):
     pars = underscore_pars(st)
     shown = {k: v for k, v in pars.items() if "_pd" in k or k in st["pd"] or k.endswith(("_M0", "_mtheta", "_mphi"))
-             or k.startswith("up_") or (pl.control is not None and k == pl.control.name)}
+             or k.startswith("up_") or (pl.control is not None and k == pl.control.name) or k in st.get("set", {})}
     return ("%s %s cutoff=%r pars(non-default)=%s multiplicity=%s sasview-dispersity-via=%s nominal=%s"
             % (pl.name, st["q"], st["cutoff"], shown, st["mult"], st["svmode"],
                {k: st["values"][k] for k in list(st["pd"])}))
@@ -536,6 +603,20 @@ def _run_eq(case, ctx):
         br.append("defaults-type-nsigma")
     if st["cut1"]:
         br.append("single-point-truncation")
+    for (t, n, w, ns) in st["pd"].values():
+        if n == 0 and w != 0:
+            br.append("explicit-zero:npts-beside-width")
+        if w == 0 and n != 0:
+            br.append("explicit-zero:width-beside-npts")
+        if ns is not None and ns == 0 and n and w:
+            br.append("explicit-zero:nsigmas-beside-npts")
+        if n == 0 and w == 0:
+            br.append("explicit-zero:npts-and-width")
+    for name, v in st["set"].items():
+        if v == 0:
+            kind = ("scale/background" if name in ("scale", "background") else
+                    "magnetic" if pl.by_name[name].type == "magnetic" else "value")
+            br.append("explicit-zero:" + kind)
     if st["mult"]:
         br.append("multiplicity-" + st["mult"][0])
         lo, hi = pl.control_limits()
@@ -563,7 +644,7 @@ def _run_eq(case, ctx):
     orient_1d = bool(pl.orient and pl.orient in st["pd"] and st["q"] == "1d")
     if orient_1d:
         br.append("orientation-pd-in-1d")
-    nt = bool(active or st["mult"] or "magnetic" in br)
+    nt = bool(active or st["mult"] or "magnetic" in br or st["set"])
     fk = {"model": pl.name, "q": st["q"]}
     reference = res.pop("reference", None)
     ref = res.get("call_kernel")
@@ -1328,6 +1409,9 @@ def finish(ctx, report):
     report.require("scale-background-defaulted", 20, "scale/background left to the default")
     report.require("magnetic", 5, "magnetic 2-D")
     report.require("Iq-compared", 50, "direct_model.Iq/Iqxy in the comparison")
+    for z in ("npts-beside-width", "width-beside-npts", "nsigmas-beside-npts", "npts-and-width", "value", "scale/background",
+              "magnetic"):
+        report.require("explicit-zero:" + z, 20, "setting given explicitly as zero: " + z)
     for o in ("ascending", "descending", "banks", "rotated"):
         report.require("q-order-" + o, 30, "q vector stored " + o)
     report.require("exception-tolerance", 2, "stated exception (orientation dispersity in 1-D through SasView)")
